@@ -234,7 +234,7 @@ def rule_first_engine_call(ctx):
             ctx.ob("C07.f", f"{mod}.{qual}: first engine call `{f.label}` in {f.fn} is inside the translating try", translated,
                    f"fakesnow/{fm[0]}.py:{f.line}")
             if not translated:
-                ctx.violation("C07.f", fm[0], fm[1] if len(fm) > 1 else "", f"first engine call reached from {qual} is outside the translating try",
+                ctx.violation("C07.f", mod, qual, f"first engine call reached from {qual} is outside the translating try",
                               f"fakesnow/{fm[0]}.py:{f.line}",
                               f"`{f.label}` is the first engine call reached from {qual} and no handler translates "
                               f"duckdb.ConnectionException there: on a closed connection a raw engine exception escapes "
